@@ -50,52 +50,169 @@ def _visible(eff):
     local objects (obj<k>)"""
     import re as _re
     out = []
+    # objects built by a constructor call in this very function (`__k` where effect k is a call of a capitalised name)
+    fresh = set()
+    k = 0
+    for kind, head, t in eff:
+        if kind == 'call' and _re.match(r'[A-Z]\w*$', head.split('.')[-1]):
+            fresh.add('__%d' % k)
+        k += 1
     for kind, head, t in eff:
         if kind == 'new':
             continue
         root = _re.split(r'[.\[(]', head)[0]
         if kind in ('call', 'store') and _re.fullmatch(r'obj\d+', root):
             continue
+        if kind == 'store' and root in fresh:
+            continue            # initialising a field of an object that was created here: part of its construction
         out.append((kind, head, t))
     return out
 
 
-def _judge(want, have, closure=()):
+def _split_top(text, sep):
+    """split at `sep` outside brackets and string literals"""
+    out, depth, cur, q, i = [], 0, '', None, 0
+    while i < len(text):
+        ch = text[i]
+        if q:
+            cur += ch
+            if ch == '\\' and i + 1 < len(text):
+                cur += text[i + 1]
+                i += 1
+            elif ch == q:
+                q = None
+        elif ch in '\'"':
+            q = ch
+            cur += ch
+        else:
+            if ch in '([{':
+                depth += 1
+            elif ch in ')]}':
+                depth -= 1
+            if depth == 0 and text.startswith(sep, i):
+                out.append(cur)
+                cur = ''
+                i += len(sep)
+                continue
+            cur += ch
+        i += 1
+    out.append(cur)
+    return out
+
+
+def _split_loops(t):
+    """-> (text with every top-level loop replaced by LOOP, [loop texts])"""
+    out, loops, i = '', [], 0
+    while True:
+        j = t.find('loop ', i)
+        if j < 0:
+            return out + t[i:], loops
+        out += t[i:j] + 'LOOP'
+        k = t.find('{', j)
+        e = t.find(' ; ', j)
+        if k < 0 or (0 <= e < k):
+            # a loop with an empty body is printed without braces: it ends at the next step
+            if e < 0:
+                loops.append(t[j:])
+                return out, loops
+            loops.append(t[j:e])
+            i = e
+            continue
+        depth = 0
+        while k < len(t):
+            if t[k] == '{':
+                depth += 1
+            elif t[k] == '}':
+                depth -= 1
+                if depth == 0:
+                    break
+            k += 1
+        loops.append(t[j:k + 1])
+        i = k + 1
+
+
+def _parse_loop(text):
+    """'loop .. do { c1 and not (c2) -> outcome || tail | ... }' -> [(conds, outcome)] or None"""
+    a, b = text.find('{'), text.rfind('}')
+    if a < 0 or b < a:
+        return None
+    rows = []
+    for part in _split_top(text[a + 1:b].strip(), ' | '):
+        bits = _split_top(part.strip(), ' -> ')
+        if len(bits) < 2:
+            return None
+        cond, outcome = bits[0], ' -> '.join(bits[1:])
+        conds = {}
+        if cond.strip() != 'always':
+            for atom in _split_top(cond.strip(), ' and '):
+                atom = atom.strip()
+                if atom.startswith('not (') and atom.endswith(')'):
+                    conds[atom[5:-1]] = False
+                else:
+                    conds[atom] = True
+        rows.append((conds, outcome.strip()))
+    return rows
+
+
+def _escaping_touch(want, have):
+    """a local object that both outcomes return (`ret obj<k>`): one of them modifies it on this path (append / store into it) and
+    the other does not touch it at all -> the returned object differs by exactly that modification"""
+    import re as _re
+    ew, eh = _effects(want.split(' || ')[0]), _effects(have.split(' || ')[0])
+    rw = [t for k, h, t in ew if k == 'exit' and t.startswith('ret ')]
+    rh = [t for k, h, t in eh if k == 'exit' and t.startswith('ret ')]
+    if len(rw) != 1 or rw != rh:
+        return None
+    m = _re.fullmatch(r'ret (obj\d+)', rw[0])
+    if not m:
+        return None
+    o = m.group(1)
+
+    def touches(eff):
+        return [t for k, h, t in eff if k in ('call', 'store') and _re.split(r'[.\[(]', h)[0] == o]
+
+    def mentions(eff):
+        return [t for k, h, t in eff if k != 'exit' and _re.search(r'\b%s\b' % o, t)]
+    tw, th = touches(ew), touches(eh)
+    if tw and not mentions(eh):
+        return 'the returned object is not modified on this path, the reviewed behaviour does `%s` first' % tw[0][:160]
+    if th and not mentions(ew):
+        return 'the returned object is modified on this path (`%s`), the reviewed behaviour returns it untouched' % th[0][:160]
+    return None
+
+
+def _judge(want, have, closure=(), depth=0):
     """two outcomes of the same case differ: is that a positively identified change of behaviour?
     -> ('bad', why) | ('undecided', why).  `closure`: variables of the enclosing function (state the function shares with its
     siblings: how it is represented -- a one-element list, a rebound nonlocal -- is not visible in one function alone)."""
     import re as _re
     if 'loop ' in want or 'loop ' in have:
-        def strip_loops(t):
-            out, i = '', 0
-            while True:
-                j = t.find('loop ', i)
-                if j < 0:
-                    return out + t[i:]
-                out += t[i:j] + 'LOOP'
-                k = t.find('{', j)
-                e = t.find(' ; ', j)
-                if k < 0 or (0 <= e < k):
-                    # a loop with an empty body is printed without braces: it ends at the next step
-                    if e < 0:
-                        return out
-                    i = e
+        w2, wl = _split_loops(want)
+        h2, hl = _split_loops(have)
+        if w2 == h2 and len(wl) == len(hl):
+            # same steps around the loops: compare the loops themselves, row by row (their bodies are decision tables too)
+            for lw, lh in zip(wl, hl):
+                if lw == lh:
                     continue
-                depth = 0
-                while k < len(t):
-                    if t[k] == '{':
-                        depth += 1
-                    elif t[k] == '}':
-                        depth -= 1
-                        if depth == 0:
-                            break
-                    k += 1
-                i = k + 1
-        w2, h2 = strip_loops(want), strip_loops(have)
+                rw, rh = _parse_loop(lw), _parse_loop(lh)
+                if rw is None or rh is None or lw.split('{')[0] != lh.split('{')[0]:
+                    return 'undecided', 'the outcomes differ inside a nested loop that cannot be compared row by row'
+                st, det = dtable.check_rows(rh, rw)
+                if st == 'unknown':
+                    return 'undecided', 'the outcomes differ inside a nested loop: %s' % det
+                if st == 'differs':
+                    wc, wo, hc, ho = det[0]
+                    kind, why = _judge(wo, ho, closure, depth + 1) if depth < 2 else ('undecided', 'nesting too deep')
+                    when = ' and '.join(('%s' if v else 'not (%s)') % k for k, v in sorted(hc.items())) or 'always'
+                    return kind, 'inside the nested loop, when %s: %s (there: `%s`, reviewed: `%s`)' % (when, why, ho[:200], wo[:200])
+            return 'undecided', 'the nested loops have the same rows in another spelling'
         if w2 == h2:
             return 'undecided', 'the outcomes differ inside a nested loop whose body is compared as text'
         want, have = w2, h2
     we, he = _visible(_effects(want)), _visible(_effects(have))
+    esc = _escaping_touch(want, have)
+    if esc is not None:
+        return 'bad', esc
     wcallees = {h for k, h, _ in _effects(want) if k == 'call'} | set(_re.findall(r'(?<![\w.])([A-Za-z_][\w.]*)\(', want))
     hcallees = {h for k, h, _ in _effects(have) if k == 'call'} | set(_re.findall(r'(?<![\w.])([A-Za-z_][\w.]*)\(', have))
     new_callees = {c for c in hcallees - wcallees if not _re.fullmatch(r'(L|S|old\d+|__\d+|len|str|int|bool|max|min|isinstance|tuple|list|dict|set|sorted|reversed|enumerate|zip|range|super)', c)
@@ -113,7 +230,15 @@ def _judge(want, have, closure=()):
         if any(k == 'loop' for k, _ in missing + extra):
             return 'undecided', 'a nested loop was added or removed (its body is compared as text only)'
         shared = set(closure) | {'_closure_'}
-        if missing + extra and all(k == 'store' and _re.split(r'[.\[(]', h)[0] in shared for k, h in missing + extra):
+        own = getattr(closure, 'own', None)
+
+        def is_shared(h):
+            root = _re.split(r'[.\[(]', h)[0]
+            if root in shared or _re.match(r'_h\d*_', h):
+                return True
+            # a free name of the function (neither a parameter nor a local of it): a variable of the enclosing function / module
+            return own is not None and root.isidentifier() and root not in own and not _re.fullmatch(r'(obj\d+|__\d+|old\d+|_acc_\w+|_fin_\w+|_elem_\w+|outer_\d+)', root)
+        if missing + extra and all(k == 'store' and is_shared(h) for k, h in missing + extra):
             return 'undecided', 'the state shared with the enclosing function is stored differently (%s instead of %s): not decidable from this function alone' % (extra or '-', missing or '-')
         if any(k in ('store', 'call') for k, _ in missing + extra) or (missing + extra and all(k == 'exit' for k, _ in missing + extra)):
             return 'bad', 'the externally visible steps differ (not in the reviewed behaviour: %s; missing: %s)' % (extra or '-', missing or '-')
@@ -169,6 +294,11 @@ def check_table(p, res, rname, fq, message, detectors=()):
         closure |= set(g.locals) | set(g.params)
         g = g.parent
     closure -= set(f.locals) | set(f.params)
+
+    class _Closure(set):
+        pass
+    closure = _Closure(closure)
+    closure.own = set(f.locals) | set(f.params)
     for d in detectors:
         hit = d(p, f)
         if hit is not None:
@@ -180,7 +310,9 @@ def check_table(p, res, rname, fq, message, detectors=()):
         return 'undecided'
     verdict = 'ok'
     n = 0
-    results = [(label, dtable.check_rows(hrows, wrows)) for (label, hrows), (_, wrows) in zip(have, want)]
+    from .tables_spec import META
+    same_locals = META.get(fq, {}).get('locals') == dtable.local_count(p, f, **kw)
+    results = [(label, dtable.check_rows(hrows, wrows, same_locals)) for (label, hrows), (_, wrows) in zip(have, want)]
     # the segments of one function are coupled through the loop-carried values (_acc_/_fin_): when one of them can no longer be
     # compared (restructured loop), a difference in another one is not a positively identified change
     coupled = any(st == 'unknown' for _, (st, _) in results) and len(results) > 1
